@@ -330,6 +330,16 @@ class Registry(object):
         return T("(mk_%s (store (arr_%s %s) (len_%s %s) %s) (+ (len_%s %s) 1))"
                  % (t.sort, t.sort, t.s, t.sort, t.s, v.s, t.sort, t.s), t.sort)
 
+    def l_empty_canonical(self, sort):
+        """THE canonical term of the empty list of this sort (constant array of a fixed default element, length 0): lists
+        built from it by appends are structurally equal whenever their items are"""
+        el = self.lst_elem[sort]
+        d = "|dflt:%s|" % el
+        if not any(n == d for n, _ in self.const_decls):
+            self.need(el)
+            self.const_decls.append((d, el))
+        return T("(mk_%s ((as const (Array Int %s)) %s) 0)" % (sort, el, d), sort)
+
     def l_empty(self, sort):
         e = self.new("empty", "(Array Int %s)" % self.lst_elem[sort]) if False else None
         a = self.new("emptyarr", sort)
